@@ -68,6 +68,30 @@ def run_call(fn, payload, ctx):
                 t.parse(src)
                 o = tree_digest(t.getroot())
                 ia = dg(src.getvalue())
+            elif fn == "treeconvert":
+                # OFXTree.convert() of a parsed file; with again=True the tree is converted a second time after the FIRST
+                # result was modified by its owner - the second result depends only on the tree, which nobody touched
+                data = bytes(payload["data"])
+                t = OFXTree()
+                t.parse(io.BytesIO(data))
+                i = tree_digest(t.getroot())
+                inst = t.convert()
+                if payload.get("again"):
+                    def scribble(x):
+                        for k, v in list(x.__dict__.items()):
+                            if isinstance(v, Aggregate):
+                                scribble(v)
+                            elif isinstance(v, str):
+                                x.__dict__[k] = v + "~"
+                        while len(x) > 0 and not isinstance(x[-1], Aggregate):
+                            x.pop()
+                        for m in x:
+                            if isinstance(m, Aggregate):
+                                scribble(m)
+                    scribble(inst)
+                    inst = t.convert()
+                o = model_digest(inst)
+                ia = tree_digest(t.getroot())
             elif fn == "convert":
                 el = ET.fromstring(payload)
                 i = tree_digest(el)
@@ -107,6 +131,8 @@ def run_call(fn, payload, ctx):
         except Exception as e:
             if fn == "parse":
                 i = dg(bytes(payload)); ia = i
+            elif fn == "treeconvert":
+                i = dg(bytes(payload["data"])); ia = i
             elif fn == "convert":
                 el = ET.fromstring(payload); i = tree_digest(el); ia = i
             elif fn in ("to_etree", "serialize"):
